@@ -220,3 +220,14 @@ Print Assumptions C02_client_line_total.
 Print Assumptions C02_client_session_complete.
 Print Assumptions C02_client_pong_in_order.
 Print Assumptions C02_client_recover_needed.
+
+(* generated-code tie, stage 2: h_CTCP.  The Gallina TRANSLATION of the handler (Gen/GoFuncs.v)
+   sends the composed model's lines when c_CTCP finishes, and is Panic exactly when it panics
+   (Proofs/GenEqClient.v) *)
+From Verif Require GenEqClient.
+Theorem gen_C02_h_CTCP : forall s l,
+  go_client_Conn_h_CTCP (Client.k_split_len (Client.c_cfg s)) (Client.k_version (Client.c_cfg s))
+                        (l_args l) (l_nick l)
+  = GenEqClient.of_cres (Client.c_CTCP s l).
+Proof. exact GenEqClient.go_h_CTCP_eq. Qed.
+Print Assumptions gen_C02_h_CTCP.
